@@ -24,6 +24,8 @@ var checks = map[string]entry{
 	"C04": {"exploration", mon.CheckC04},
 	"C05": {"exploration", mon.CheckC05},
 	"C06": {"exploration", mon.CheckC06},
+	"C07": {"exploration", mon.CheckC07},
+	"C08": {"exploration", mon.CheckC08},
 }
 
 func main() {
